@@ -90,7 +90,12 @@ OPERAND_KINDS = {"o1", "oo", "ov"}
 RESULT_KINDS = {"r1", "ro", "rv"}
 KIND_WORD = {"oo": "opt-operand", "ov": "var-operand", "o1": "operand", "ro": "opt-result", "rv": "var-result", "r1": "result",
              "pi": "int-prop", "pa": "untyped-int-prop", "pu": "unit-prop", "pq": "opt-prop", "pqa": "opt-untyped-prop",
-             "pd": "default-prop", "pod": "opt-default-prop", "aq": "opt-attr", "au": "unit-attr", "ad": "default-attr"}
+             "pd": "default-prop", "pod": "opt-default-prop", "aq": "opt-attr", "au": "unit-attr", "ad": "default-attr",
+             "da64": "dense-i64-array-prop", "da32": "dense-i32-array-prop", "daf": "dense-f32-array-prop",
+             "dao64": "opt-dense-i64-array-prop", "dao32": "opt-dense-i32-array-prop", "daof": "opt-dense-f32-array-prop"}
+# dense-array properties (DenseArrayBase over i64 / i32 / f32), printed in the short `[...]` form; values: [] [0] [1, -2]
+DENSE_KINDS = {"da64": "i64", "da32": "i32", "daf": "f32", "dao64": "i64", "dao32": "i32", "daof": "f32"}
+DENSE_POOL = ([], [0], [1, -2])
 
 
 def field_states(kind: str, quick: bool) -> list[Any]:
@@ -104,6 +109,8 @@ def field_states(kind: str, quick: bool) -> list[Any]:
         return list(INT_POOL[:2] if quick else INT_POOL)
     if kind in ("pu", "au"):
         return [None, "unit"]
+    if kind in DENSE_KINDS:
+        return ([None] if kind.startswith("dao") else []) + [list(v) for v in DENSE_POOL]
     return [None, *INT_POOL[:2]]     # pq pqa pd pod aq ad : absent, the default value 7, a non-default value
 
 
@@ -305,6 +312,21 @@ def _templates() -> list[tuple[str, Callable]]:
             p = f"p{i}"
             return f"bare[{KIND_WORD[k]}]", [(p, k)], [K(f"ka{i}"), V(p), *_close(k, i)]
         add(f"bare-{k}", pbare)
+    for k in ("da64", "da32", "daf", "dao64", "dao32", "daof"):
+        def dbare(i, om, rm, k=k):
+            p = f"p{i}"
+            return f"bare[{KIND_WORD[k]}]", [(p, k)], [K(f"ka{i}"), V(p)]
+        add(f"bare-{k}", dbare)
+    for k in ("dao64", "dao32", "daof"):
+        def dgrp(i, om, rm, k=k):
+            p = f"p{i}"
+            return f"optional-group[{KIND_WORD[k]}]", [(p, k)], [G([K(f"ka{i}"), A(V(p))])]
+        add(f"group-{k}", dgrp)
+
+        def dgrp_else(i, om, rm, k=k):
+            p = f"p{i}"
+            return f"optional-group-else-keyword[{KIND_WORD[k]}]", [(p, k)], [G([K(f"ka{i}"), A(V(p))], [K(f"kb{i}")])]
+        add(f"group-else-{k}", dgrp_else)
     for k in ("pu", "pq", "pqa", "pd", "pod", "aq", "au"):
         def pgrp(i, om, rm, k=k):
             p = f"p{i}"
@@ -387,7 +409,7 @@ def _templates() -> list[tuple[str, Callable]]:
 TEMPLATES = _templates()
 TEMPLATE_BY_ID = dict(TEMPLATES)
 # core alphabet for the pairs of the quick tier
-CORE = ("group-oo", "bare-ov", "group-else-binds-oo-oo", "nested-else-oo-oo-oo", "bare-pi", "group-pd", "group-pu", "group-ro", "bare-rv", "bare-r1")
+CORE = ("group-oo", "bare-ov", "group-else-binds-oo-oo", "nested-else-oo-oo-oo", "bare-pi", "group-pd", "group-pu", "group-dao64", "group-ro", "bare-rv", "bare-r1")
 MODES_ALL = tuple(itertools.product(("infer", "inline", "tail"), repeat=2))
 MODES_PAIR = (("infer", "infer"), ("inline", "inline"), ("tail", "tail"))
 
@@ -457,7 +479,7 @@ def definitions(quick: bool) -> list[dict]:
 # --------------------------------------------------------------------------------------------------------------
 # building the class and the instances (the real implementation is only used through its public construction API)
 def build_class(spec: dict, n: int):
-    from xdsl.dialects.builtin import I32, IntegerAttr, UnitAttr, i32
+    from xdsl.dialects.builtin import I32, I64, DenseArrayBase, Float32Type, IntegerAttr, UnitAttr, i32
     from xdsl.irdl import (AttrSizedOperandSegments, AttrSizedResultSegments, IRDLOperation, attr_def, irdl_op_definition,
                            operand_def, opt_attr_def, opt_operand_def, opt_prop_def, opt_result_def, prop_def, result_def,
                            var_operand_def, var_result_def)
@@ -476,6 +498,10 @@ def build_class(spec: dict, n: int):
             "pd": lambda: prop_def(IntegerAttr[I32], default_value=dflt), "pod": lambda: opt_prop_def(IntegerAttr[I32], default_value=dflt),
             "aq": lambda: opt_attr_def(IntegerAttr[I32]), "au": lambda: opt_attr_def(UnitAttr),
             "ad": lambda: attr_def(IntegerAttr[I32], default_value=dflt),
+            "da64": lambda: prop_def(DenseArrayBase[I64]), "da32": lambda: prop_def(DenseArrayBase[I32]),
+            "daf": lambda: prop_def(DenseArrayBase[Float32Type]),
+            "dao64": lambda: opt_prop_def(DenseArrayBase[I64]), "dao32": lambda: opt_prop_def(DenseArrayBase[I32]),
+            "daof": lambda: opt_prop_def(DenseArrayBase[Float32Type]),
         }[kind]()
     opts = []
     if "AttrSizedOperandSegments" in spec["options"]:
@@ -501,7 +527,7 @@ def make_ctx(cls):
 
 
 def build_module(cls, spec: dict, inst: dict[str, Any]):
-    from xdsl.dialects.builtin import DenseArrayBase, IndexType, IntegerAttr, ModuleOp, UnitAttr, i8, i32, i64
+    from xdsl.dialects.builtin import DenseArrayBase, IndexType, IntegerAttr, ModuleOp, UnitAttr, f32, i8, i32, i64
     from xdsl.dialects.test import TestOp
 
     ty = {"i32": i32, "i64": i64, "index": IndexType()}
@@ -525,6 +551,9 @@ def build_module(cls, spec: dict, inst: dict[str, Any]):
         elif s is not None:
             if kind in ("pu", "au"):
                 v = UnitAttr()
+            elif kind in DENSE_KINDS:
+                elt = {"i64": i64, "i32": i32, "f32": f32}[DENSE_KINDS[kind]]
+                v = DenseArrayBase.from_list(elt, [float(e) for e in s] if elt is f32 else list(s))
             elif kind in ("pa", "pqa"):
                 v = IntegerAttr(s, i64)
             else:
